@@ -43,6 +43,8 @@ MUTANTS = [
     ("C02", "no-end-anchor", "typhon/files/fileset.py", 'regex_string = "^" + path.format(**placeholder) + "$"', 'regex_string = "^" + path.format(**placeholder)'),
     ("C02", "handler-none-overwrites", "typhon/files/handlers/common.py", "if other_info.times[1] is not None or not ignore_none_time:", "if True:"),
     ("C02", "superior-wrong-unit", "typhon/files/fileset.py", "superior_resolution = resolutions[highest_resolution_index - 1]", "superior_resolution = resolutions[highest_resolution_index]"),
+    ("C06", "cm-factor", "typhon/geographical.py", '    [{"cm", "centimeter", "centimeters"}, 1e-5],', '    [{"cm", "centimeter", "centimeters"}, 1e-6],'),
+    ("C06", "yds-as-feet", "typhon/geographical.py", '    [{"yd", "yds", "yard", "yards"}, 0.9144e-3],\n    [{"ft", "foot", "feet"}, 0.3048e-3],', '    [{"yd", "yard", "yards"}, 0.9144e-3],\n    [{"ft", "foot", "feet", "yds"}, 0.3048e-3],'),
     ("C06", "perm-wrong-way", "typhon/geographical.py", "            pairs[0, :] = self.shuffler[pairs[0, :]]\n\n            return pairs, distances", "            pairs[0, :] = np.argsort(self.shuffler)[pairs[0, :]]\n\n            return pairs, distances"),
     ("C06", "km-factor", "typhon/geographical.py", "        if self.metric == \"minkowski\":\n            r *= 1000.", "        if self.metric == \"minkowski\":\n            r *= 1000.0001"),
     ("C06", "miles-factor", "typhon/geographical.py", '[{"mi", "mile", "miles"}, 1.609344]', '[{"mi", "mile", "miles"}, 1.852]'),
@@ -75,6 +77,7 @@ MUTANTS = [
     ("C12", "xz-key", "typhon/files/utils.py", "    _known_compressions['xz'] = lzma.LZMAFile", "    _known_compressions['.xz'] = lzma.LZMAFile"),
     ("C12", "bz2-as-plain-copy", "typhon/files/utils.py", "                elif fmt == \"bz2\" or fmt == \"xz\":\n                    with compfile(target, 'wb') as f_out:", "                elif fmt == \"bz2\" or fmt == \"xz\":\n                    with open(target, 'wb') as f_out:"),
     ("C12", "swallow-compress-error", "typhon/files/utils.py", "    except Exception as e:\n        raise e\n    else:\n        if not keep:", "    except Exception as e:\n        pass\n    else:\n        if not keep:"),
+    ("C15", "empty-cache-not-saved", "typhon/files/fileset.py", "        if filename is not None:\n            # First write all to a backup file.", "        if filename is not None and self.info_cache:\n            # First write all to a backup file."),
     ("C15", "write-directly", "typhon/files/fileset.py", ["            with open(filename+\".backup\", 'w') as file:", "            shutil.move(filename+\".backup\", filename)"], ["            with open(filename, 'w') as file:", "            pass"]),
     ("C15", "drop-microseconds", "typhon/files/handlers/common.py", 'time.strftime("-%m-%dT%H:%M:%S.%f")', 'time.strftime("-%m-%dT%H:%M:%S.000000")'),
     ("C15", "load-reraises", "typhon/files/fileset.py", "            except Exception as err:\n                warnings.warn(\n                    \"Could not load the file information from cache file \"", "            except ValueError as err:\n                warnings.warn(\n                    \"Could not load the file information from cache file \""),
